@@ -45,7 +45,11 @@ fn judge(issued: &Cred, d: &Cred) -> Verdict {
     let strip = |m: &[Integer]| { let mut v = m.to_vec(); while v.last().map(|x| *x == 0).unwrap_or(false) { v.pop(); } v };
     let (a, b) = (strip(&issued.msgs), strip(&d.msgs));
     if a != b { return Verdict::MustReject; }
-    if d.bases.len() < b.len() || d.bases[..b.len()] != issued.bases[..b.len()] { return Verdict::MustReject; }
+    // a base only matters where the attribute is non-zero (a_i^0 = 1)
+    for i in 0..b.len() {
+        if b[i] != 0 && (i >= d.bases.len() || d.bases[i] != issued.bases[i]) { return Verdict::MustReject; }
+    }
+    if d.bases.len() < d.msgs.len() { return Verdict::DontCare; } // refused by panic ("Not enought a_bases") or not: same statement
     if d.msgs == issued.msgs && d.bases == issued.bases { Verdict::MustAccept } else { Verdict::DontCare }
 }
 
